@@ -169,6 +169,17 @@ func c16Run(raw json.RawMessage) harn.Result {
 		dispatched = map[string]int{}
 		var perr, rerr error
 		site, p := harn.Guard(func() {
+			// through Run, the entry point hosts use (odd cases: Parse + RunAfterParsed, the two-step form)
+			if (len(src)+i)%2 == 0 {
+				if err := vm.Run(src); err != nil {
+					if drv.IsSyntaxError(err) {
+						perr = err
+					} else {
+						rerr = err
+					}
+				}
+				return
+			}
 			perr = vm.Parse(src)
 			if perr == nil {
 				rerr = vm.RunAfterParsed()
